@@ -30,6 +30,10 @@ AddTok == /\ phase = "doc" /\ Len(doc) < MaxDoc
                    \cup {[k |-> "void", tag |-> "link", id |-> 0, blank |-> FALSE]}
                    \cup {[k |-> "text", tag |-> "", id |-> NextId(doc), blank |-> b] : b \in BOOLEAN} :
                 /\ (tok.k = "close" => st # <<>>)
+                \* HTML content model: no block element (div, p) inside p or i -- the HTML parser
+                \* re-parents such markup and adjacent text nodes merge (outside the generated domain)
+                /\ (tok.k = "open" /\ tok.tag \in {"div", "p"} =>
+                        \A y \in DOMAIN st : st[y] \notin {"p", "i"})
                 \* <head> only as the first element; it holds only style / script / link / blank text
                 /\ (tok.k = "open" /\ tok.tag = "head" => doc = <<>>)
                 /\ (top = "head" => \/ tok.k \in {"close", "void"}
